@@ -111,3 +111,22 @@ Proof.
   rewrite <- cutoff_is_last_slot. replace (Z.to_nat (MAXIDX + 1)) with (S (Z.to_nat MAXIDX)) by (vm_compute; reflexivity).
   reflexivity.
 Qed.
+
+(* ---- the read-through loop asks for every slot down to the first empty one, the last slot (3F) of a full log included ---- *)
+Lemma asks_seq : forall n len from, (from <= len)%nat -> asks len from n = seq from (Nat.min n (S (len - from))).
+Proof.
+  induction n as [|n IH]; intros len from H; [reflexivity|]. cbn [asks].
+  destruct (Nat.ltb from len) eqn:E.
+  - apply Nat.ltb_lt in E. rewrite IH by lia.
+    replace (S (len - S from)) with (len - from)%nat by lia.
+    replace (Nat.min (S n) (S (len - from))) with (S (Nat.min n (len - from))) by lia. reflexivity.
+  - apply Nat.ltb_ge in E. assert (len = from) by lia. subst len.
+    replace (from - from)%nat with 0%nat by lia. replace (Nat.min (S n) 1) with 1%nat by lia. reflexivity.
+Qed.
+Theorem read_through_asks_every_slot len : get_faultlog_asks len 0 64 = seq 0 (Nat.min 64 (S len)).
+Proof.
+  unfold get_faultlog_asks. change (Nat.min (0 + 64) 64 - 0)%nat with 64%nat. rewrite asks_seq by apply Nat.le_0_l.
+  rewrite Nat.sub_0_r. reflexivity.
+Qed.
+Corollary full_log_read_to_the_last_slot len : (64 <= len)%nat -> In 63%nat (get_faultlog_asks len 0 64) /\ length (get_faultlog_asks len 0 64) = 64%nat.
+Proof. intros H. rewrite read_through_asks_every_slot. replace (Nat.min 64 (S len)) with 64%nat by lia. split; [apply in_seq; lia|apply seq_length]. Qed.
